@@ -341,6 +341,37 @@ def e_meta(a, b, x):
     return list(s.run(iter([(x, {})])))
 
 
+def _one_value():
+    yield (1, {})
+
+
+def e_static_context(a, b, x):
+    """Static-context error paths of every kind of sequence: items with
+    resolvable and unresolvable formatting keys inside Sequence / Source /
+    Split / nested sequences; the stored LenaKeyError may only surface as
+    LenaKeyError."""
+    m = lena.meta
+    items = _sel([lambda: [m.SetContext("d", "{{a}}_x")],
+                  lambda: [m.SetContext("a", "A"), m.SetContext("d", "{{a}}_x")],
+                  lambda: [m.SetContext("d", "{{a}}_x"), m.SetContext("a", "A")],
+                  lambda: [lambda v: v, m.SetContext("d", "{{q.r}}"), m.StoreContext()],
+                  lambda: [m.SetContext("a", "A"), m.UpdateContextFromStatic(), m.SetContext("e", "{{nokey}}")],
+                  lambda: [m.StoreContext(), m.SetContext("d", 5)]], b)
+    c = lena.core
+    seq = _sel([lambda: c.Sequence(*items()),
+                lambda: c.Source(_one_value, *items()),
+                lambda: c.Sequence(c.Split([tuple(items()), (lambda v: v,)])),
+                lambda: c.Sequence(c.Split([(lambda v: v,), tuple(items())]), m.StoreContext()),
+                lambda: c.Sequence(c.Sequence(*items()), m.SetContext("a", "B")),
+                lambda: c.Source(_one_value, c.Sequence(*items()), m.SetContext("a", "B"))], a)()
+    repr(seq)
+    if x % 2:
+        return seq._get_context()
+    if isinstance(seq, c.Source):
+        return list(seq())
+    return list(seq.run(iter([(x, {})])))
+
+
 def e_variable(a, b, x):
     v = lena.variables.Variable(_sel(["v", 5, None], a), _sel([lambda d: d, 5, None], b), type="t")
     r = v(x)
@@ -454,7 +485,7 @@ ENTRIES = [e_running_chunk, e_select_context, e_mean, e_variance, e_vectorize, e
            e_delete_context, e_context_funcs, e_context_class, e_format, e_selector, e_not, e_filter,
            e_group_by, e_group_plots, e_map_group, e_group_scale, e_count, e_slice, e_iterators,
            e_count_from_bad, e_run_if, e_progress_print, e_drop_context, e_zip, e_cache, e_sequence,
-           e_cache_drop_fails, e_source, e_split, e_split_methods, e_fill_seqs, e_adapters, e_fill_request, e_fill_request_run, e_meta, e_variable,
+           e_cache_drop_fails, e_source, e_split, e_split_methods, e_fill_seqs, e_adapters, e_fill_request, e_fill_request_run, e_meta, e_static_context, e_variable,
            e_compose_combine, e_histogram, e_histogram_el, e_hist_funcs, e_graph, e_structure_elements,
            e_output, e_math, e_vector3, e_alter]
 
@@ -501,6 +532,6 @@ def check_entry(e: int, a: int, b: int, x: int) -> bool:
 
 
 CONDITIONS = [
-    dict(fn="check_entry", shards=(47, 47), budget=(60, 600),
+    dict(fn="check_entry", shards=(48, 48), budget=(60, 600),
          smoke=["check_entry(2, 0, 1, 1)", "check_entry(10, 0, 0, 1)", "check_entry(41, 1, 0, 1)"]),
 ]
